@@ -597,3 +597,34 @@ def name_based_wiring_binds_exactly_the_matching_handlers(b):
     "exactly_the_matching_handlers_are_subscribed": lambda res: res[0] == len(expected()) and res[1] == expected(),
   })
 name_based_wiring_binds_exactly_the_matching_handlers.bound = "one sink class with six methods, four prefixes"
+
+
+# ---------------------------------------------------------------- declarations made at run time stay with their source
+# (added 2026-09-25 after seeded change C05_11 turned the class-level default of `_eventMixin_events` into one shared mutable
+# set: once ANY source without a static declaration had declared an event type at run time, EVERY such source accepted it)
+
+class Bare1(EventMixin):
+  pass
+
+
+class Bare2(EventMixin):
+  pass
+
+
+@unit(P, target=RV + "EventMixin._eventMixin_init / _eventMixin_addEvent(s) / addListener / raiseEvent")
+def a_type_declared_at_run_time_on_one_source_is_still_undeclared_on_every_other(b):
+  s1, s2, s3 = b.new(Bare1), b.new(Bare2), b.new(Bare1)
+  def run(s1, s2, s3):
+    s1._eventMixin_addEvents([Ev])
+    out = []
+    for f in (lambda: s1.addListener(Ev, hnew), lambda: s2.addListener(Ev, hnew), lambda: s3.addListener(Ev, hnew),
+              lambda: s2.raiseEvent(Ev()), lambda: s3.raiseEvent(Ev())):
+      try:
+        f()
+        out.append("accepted")
+      except ReventError:
+        out.append("rejected")
+    return out
+  return Case(run, [s1, s2, s3], raises={}, ensures={
+    "only_the_source_that_declared_it_accepts_it": lambda res: res == ["accepted", "rejected", "rejected", "rejected", "rejected"],
+  })
